@@ -314,6 +314,7 @@ func init() {
 		}
 		return nil
 	})
+	reg("SchedOnlyAtYield", func(in *Interp, fr *frame, a []Value) Value { in.m.onlyYield = a[0].(Bool).C; return nil })
 	reg("Stop", func(in *Interp, fr *frame, a []Value) Value { panic(pathEnd{}) })
 	reg("Fault", func(in *Interp, fr *frame, a []Value) Value {
 		return Bool{C: in.maybeFault(strArg(a[0]), strArg(a[1]))}
